@@ -36,9 +36,14 @@ class FakeWriter:
             self.write(ln)
 
     async def drain(self) -> None:
+        # like asyncio.StreamWriter.drain(): the reader's exception first (set by connection_lost(exc) after a
+        # reset), then one yield while closing, then ConnectionResetError('Connection lost') once
+        # connection_lost() has been delivered (also after a local close())
         if self.wire.broken:
             raise ConnectionResetError("fake: connection reset by peer")
         await asyncio.sleep(0)
+        if self.wire.lost:
+            raise ConnectionResetError("Connection lost")
 
     def close(self) -> None:
         if not self._closed:
